@@ -289,6 +289,11 @@ theorem gen_phrase_slop_test :
 /-- `FilteringSearcher.Advance` re-enters the FILTERED `Next` after a rejected target (`Filt.step`) -/
 theorem gen_filter_fallback : BlugeGen.C07.filterAdvanceFallback = "f.Next(ctx)" := by decide
 
+/-- `literalPrefix` (search_regexp.go) hands a literal to the dictionary walk as its prefix only when the literal
+is not case-folded (`Matcher.oneOf`: the meaning of a regexp leaf is the match of the WHOLE dictionary; a prefix
+taken from a folded literal — stored in its upper-case spelling — would confine the walk to one case variant) -/
+theorem gen_regexp_literal_prefix : BlugeGen.C07.literalPrefixOnlyWithoutFoldCase = true := by decide
+
 /-- `postingsIterator.Advance`: the restart test is `currPosting != nil && currID >= number`
 (`PIter.advStart`), the restart does not close the iterator that stays in use, and
 `segmentIndexAndLocalDocNumFromGlobal` is `sort.Search(len(offsets), offsets[x] > docNum) - 1` (`segIndexOf`) -/
